@@ -10,6 +10,10 @@ checks = {
  "C02": dict(cat="fault_enumeration", tech="adversarial-execution monitor (enumerated proof edits, replay, option mismatch, dishonest prover via PostSolve hook editing L,R,O, byte flips) + reference-model key audit after Setup",
    text="Every single-leaf edit of genuine PLONK proofs is enumerated against the real verifier on generated sparse systems with 0..2 BSB22 commitments over 3/7 curves; the dishonest prover violates exactly a gate, only a copy constraint, or a public row (classified independently by ceval); the key audit recomputes selector columns, the wiring permutation's cycle structure and all vk commitments from the exported gates. Says what the observed executions did, nothing about unimplemented adversaries.",
    note="trusted: ceval, gnark-crypto kzg.Commit/fft used by the audit, unsafekzg SRS; soundness error 2^-250 treated as never", ref="§3 C02"),
+
+ "C08": dict(cat="exploration", tech="hostile-input monitor in child processes: truncations, length-prefix rewrites, bit flips, shape edits, witness header/payload disagreement through ReadFrom -> Public() -> Verify; crash/abort of the child is the violation event",
+   text="Runs the real decoders and verifiers of both back-ends on ~10^5 (quick) hostile byte strings and objects per run derived from genuine triples, one child process per (curve, back-end) with each input logged before use; observes panics (recovered or fatal), process death, and structurally inconsistent inputs that no stage reports. Held-on-what-was-observed only.",
+   note="declared slice lengths above 2^16 excluded (allocation happens inside gnark-crypto before reading); keys are trusted inputs", ref="§3 C08"),
 }
 pending = {}
 for i in range(1,21):
